@@ -84,6 +84,29 @@ def conventions(repo, rep):
             rep.fail("R-C14-6", fi.file, fi.node.lineno, fi.qualname, str(got), f"convention detector changed (expected {want})")
 
 
+def _truth(t):
+    """Value of a convention test when the dataset is in 0-360 and the query is NOT in the same convention."""
+    if isinstance(t, ast.UnaryOp) and isinstance(t.op, ast.Not):
+        v = _truth(t.operand)
+        return None if v is None else (not v)
+    if isinstance(t, ast.BoolOp):
+        vs = [_truth(v) for v in t.values]
+        if None in vs:
+            return None
+        return all(vs) if isinstance(t.op, ast.And) else any(vs)
+    if isinstance(t, ast.Call) and call_name(t).split(".")[-1] == "_is_360":
+        return True
+    if isinstance(t, ast.Call) and call_name(t).split(".")[-1] == "_is_180":
+        return False
+    if isinstance(t, ast.Attribute) and t.attr == "consistent":
+        return False
+    if isinstance(t, ast.Compare) and len(t.ops) == 1 and isinstance(t.left, ast.Attribute) and t.left.attr == "consistent" \
+            and isinstance(t.comparators[0], ast.Constant) and isinstance(t.comparators[0].value, bool):
+        same = isinstance(t.ops[0], (ast.Is, ast.Eq))
+        return (False == t.comparators[0].value) if same else (False != t.comparators[0].value)
+    return None
+
+
 def bbox_bounds(repo, rep):
     fi = repo.func(f"{SEL}.sel_bbox")
     lo, hi, tol = set(), set(), None
@@ -113,7 +136,16 @@ def bbox_bounds(repo, rep):
             n_cmp += 1
             op = {"<": ast.Gt, "<=": ast.GtE, ">": ast.Lt, ">=": ast.LtE}.get(r_[1], ast.Eq)
             coord = "lon" if "lon" in unparse(r_[2]) else "lat"
-            wrapped = any(isinstance(i_, ast.If) and "_is_360" in unparse(i_.test) and any(n is x for o in i_.orelse for x in ast.walk(o)) for i_ in ast.walk(fi.node))
+            wrapped = False
+            for i_ in ast.walk(fi.node):
+                if isinstance(i_, ast.If) and "_is_360" in unparse(i_.test):
+                    # which branch runs for a 0-360 dataset queried in the other convention (_is_360 True, consistent False)?
+                    pol = _truth(i_.test)
+                    if pol is None:
+                        raise AnalysisError("sel_bbox: convention test not understood")
+                    branch = i_.body if pol else i_.orelse
+                    if any(n is x for o in branch for x in ast.walk(o)):
+                        wrapped = True
             opn = {ast.GtE: ">=", ast.Gt: ">", ast.LtE: "<=", ast.Lt: "<"}.get(op, op.__name__)
             anchor = f"sel_bbox:{'wrapped' if wrapped else 'plain'}:{coord}{opn}{'upper' if b in hi else 'lower'}"
             if (axis_of.get(b) == "lon") != (coord == "lon"):
